@@ -463,15 +463,7 @@ def monotone(ctx, pt, r):
             continue
         v1 = float(v1)
         ctx.count("monotonicity_pairs")
-        rel = 1e-9
-        if pt.mech == "GaussianAnalytic":
-            # sigma is the root of an objective containing e^eps (1 + erf(-x)): its numerical noise is the absolute
-            # rounding of erf amplified by e^eps / delta (C02); below that resolution "monotone" has no meaning
-            amp = math.exp(min(700.0, max(p["epsilon"], q["epsilon"]))) * 2.3e-16 / p["delta"]
-            if amp > 1e-4:
-                ctx.boundary_skipped += 1
-                continue
-            rel = max(rel, 100 * amp)
+        rel = 1e-9       # numerical noise of the solved calibrations is ~1e-15 since the cdf is evaluated with erfc
         slack = rel * max(abs(v0), abs(v1))
         if (sign < 0 and v1 > v0 + slack) or (sign > 0 and v1 < v0 - slack) or v1 != v1:
             emit(ctx, f"C19:{pt.mech}:variance-not-monotone-in-{name}",
